@@ -527,64 +527,77 @@ def golden(fn, lo, hi, iters=70):
     return (c, fc) if fc < fd else (d, fd)
 
 
-def descend(prof, i: int) -> int:
-    n = len(prof)
-    while True:
-        left = prof[i - 1] if i > 0 else math.inf
-        right = prof[i + 1] if i < n - 1 else math.inf
-        if left < prof[i] and left <= right:
-            i -= 1
-        elif right < prof[i]:
-            i += 1
-        else:
-            return i
+class CurveSamples:
+    """The curve sampled once, refined until neighbouring samples are no further apart than 1/1500 of its length (the
+    parametrisation of an interpolated curve can be 100x faster in one place than in another)."""
+
+    def __init__(self, sample, b0, b1, extra=()):
+        self.sample = sample
+        ts = dense_params(b0, b1, extra, n=801)
+        pts = sample(ts)
+        for _ in range(12):
+            seg = np.linalg.norm(np.diff(pts, axis=0), axis=1)
+            long = np.nonzero(seg > seg.sum() / 1500)[0]
+            if len(long) == 0 or len(ts) > 12000:
+                break
+            mid = 0.5 * (ts[long] + ts[long + 1])
+            ts = np.concatenate((ts, mid))
+            pts = np.concatenate((pts, sample(mid)))
+            order = np.argsort(ts, kind="stable")
+            ts, pts = ts[order], pts[order]
+        self.ts, self.pts = ts, pts
+        self.length = polyline(pts)
+
+    def minima(self, q, lo, hi, keep=6):
+        """refined local minima [(distance, t)] of |P(t) - q| over [lo, hi], best first"""
+        sel = np.nonzero((self.ts >= lo) & (self.ts <= hi))[0]
+        if len(sel) == 0:
+            t = 0.5 * (lo + hi)
+            return [(float(np.linalg.norm(self.sample([t])[0] - q)), t)]
+        ts = self.ts[sel]
+        prof = np.linalg.norm(self.pts[sel] - q, axis=1)
+        cand = [i for i in range(len(prof))
+                if prof[i] <= (prof[i - 1] if i > 0 else math.inf) and prof[i] <= (prof[i + 1] if i < len(prof) - 1 else math.inf)]
+        cand = sorted(cand, key=lambda i: prof[i])[:keep]
+        out = []
+        for i in cand:
+            a, b = max(lo, ts[max(i - 1, 0)]), min(hi, ts[min(i + 1, len(ts) - 1)])
+            t, d = golden(lambda t: float(np.linalg.norm(self.sample([t])[0] - q)), a, b, iters=45) if b > a else (a, prof[i])
+            out.append((min(d, float(prof[i])), float(t) if d <= prof[i] else float(ts[i])))
+        return sorted(out)
+
+    def nearest(self, q, lo, hi):
+        d, t = self.minima(q, lo, hi)[0]
+        return t, d
 
 
-class Profile:
-    """distance from q to densely sampled points of the curve over [lo, hi] (+ the library's 15 scan parameters)"""
-
-    def __init__(self, sample, lo, hi, q, n=2001, scan_bounds=None):
-        self.sample, self.q = sample, np.asarray(q, dtype=float)
-        extra = np.linspace(scan_bounds[0], scan_bounds[1], 15) if scan_bounds else []
-        self.ts = dense_params(lo, hi, extra, n)
-        self.pts = sample(self.ts)
-        self.prof = np.linalg.norm(self.pts - self.q, axis=1)
-        self.length = polyline(self.pts)
-        self.i_min = int(np.argmin(self.prof))
-        self.d_min = float(self.prof[self.i_min])
-        self.scan_bounds = scan_bounds
-
-    def modes(self) -> int:
-        p = self.prof
-        k = 0
-        for i in range(len(p)):
-            left = p[i - 1] if i > 0 else math.inf
-            right = p[i + 1] if i < len(p) - 1 else math.inf
-            k += bool(p[i] < left and p[i] <= right)
-        return k
-
-    def scan_in_global_basin(self, tol: float) -> bool:
-        """does the best of the 15 scan parameters lead downhill to a minimum as good as the global one?"""
-        scan = np.linspace(self.scan_bounds[0], self.scan_bounds[1], 15)
-        d = np.linalg.norm(self.sample(scan) - self.q, axis=1)
-        i = int(np.searchsorted(self.ts, scan[int(np.argmin(d))]))
-        i = min(i, len(self.ts) - 1)
-        return bool(self.prof[descend(self.prof, i)] <= self.d_min + tol)
+TOL_CLOSEST = 3e-6  # of the curve length; converged answers of the fixed tree are within 2.7e-8 L (sqrt(eps) of the bounded search)
 
 
-def pinned_refinement(curve, q, b0, b1, sample):
-    """Root-cause probe, used only to tag a miss (F26): the pinned tree's procedure (best of 15 scan parameters, then
-    scipy's default bounded minimiser, whose status is not looked at) -> (solver reported failure, parameter reached)"""
-    import scipy.optimize
-
-    scan = np.linspace(b0, b1, 15)
-    start = scan[int(np.argmin(np.linalg.norm(sample(scan) - q, axis=1)))]
+def judge_closest(curve, cs, q, b0, b1, facts):
+    """get_closest_param(q) must give a point at least as close to q as every dense sample (cs.pts).  The fact
+    returned_is_local_minimiser tells a refinement that worked in the wrong neighbourhood from one that did not work.
+    Returns (t, excess / L)."""
     try:
-        res = scipy.optimize.minimize(lambda t: float(np.linalg.norm(np.asarray(curve.get_point(t[0])) - q)), (start,),
-                                      bounds=((b0, b1),))
-    except Exception:  # noqa: BLE001
-        return True, math.nan
-    return not bool(res.success), float(res.x[0])
+        t = float(curve.get_closest_param(q))
+    except Exception as ex:  # noqa: BLE001
+        raise Violation("closest-raised", f"get_closest_param raised {type(ex).__name__}: {ex}", **facts) from None
+    span = b1 - b0
+    if not (b0 - 1e-9 * span <= t <= b1 + 1e-9 * span):
+        raise Violation("closest-out-of-bounds", f"get_closest_param returned {t}, bounds are ({b0}, {b1})", **facts, t=t)
+    d = float(np.linalg.norm(cs.sample([min(b1, max(b0, t))])[0] - q))
+    prof = np.linalg.norm(cs.pts - q, axis=1)
+    i_min = int(np.argmin(prof))
+    L = cs.length
+    if d <= prof[i_min] + TOL_CLOSEST * L:
+        return t, (d - float(prof[i_min])) / L
+    mins = cs.minima(q, b0, b1, keep=40)
+    local = any(abs(tm - t) <= 2e-3 * span and abs(dm - d) <= 1e-7 * L for dm, tm in mins)
+    facts = dict(facts, t=t, distance=d, dense_min=float(prof[i_min]), t_dense=float(cs.ts[i_min]), length=L,
+                 local_minima=len(mins), returned_is_local_minimiser=bool(local))
+    raise Violation("closest-not-minimal",
+                    f"returned t = {t} at distance {d}; the dense sample at t = {facts['t_dense']} is at {facts['dense_min']} "
+                    f"(curve length {L})", **facts)
 
 
 def query_point(case, sample):
@@ -642,7 +655,7 @@ def check_closest_discrete(case, ctx: Ctx) -> None:
         raise Violation("closest-out-of-bounds", f"get_closest_param returned {t!r} for {len(pts)} points", **facts_of(case))
     if not ok:
         raise Violation("closest-not-minimal", f"returned index {t} at distance {dist[int(t)]}, point {int(np.argmin(dist))} "
-                        f"is at {dist.min()}", **facts_of(case, scan_in_global_basin=True))
+                        f"is at {dist.min()}", **facts_of(case))
     ctx.nt(spacing_ratio(spec) > 2)
     ctx.label("near", "frac=%g" % case["query"]["frac"])
 
@@ -654,38 +667,22 @@ def check_closest_function(case, ctx: Ctx) -> None:
     b0, b1 = bounds_of(spec)
     q, _local = query_point(case, sample)
     mode = case["query"]["mode"]
-    try:
-        t = float(curve.get_closest_param(q))
-        d = float(np.linalg.norm(np.asarray(curve.get_point(min(b1, max(b0, t)))) - q))
-    except Exception as ex:  # noqa: BLE001
-        if mode == "far":
-            ctx.label("far:raised")
-            return
-        raise Violation("closest-raised", f"get_closest_param raised {type(ex).__name__}: {ex}", **facts_of(case)) from None
-    prof = Profile(sample, b0, b1, q, scan_bounds=(b0, b1))
-    tol = 1e-3 * prof.length  # twice the spacing of the dense samples; refinement noise measured <= 6.4e-6 L
-    good = d <= prof.d_min + tol and b0 - 1e-9 * (b1 - b0) <= t <= b1 + 1e-9 * (b1 - b0)
+    cs = CurveSamples(sample, b0, b1, break_params(spec) or ())
+    facts = facts_of(case, frac=case["query"]["frac"], mode=mode)
     if mode == "far":
-        ctx.label("far:as-good" if good else "far:worse")
+        # outside the statement ("for queries near the curve"): counted only
+        try:
+            judge_closest(curve, cs, q, b0, b1, facts)
+            ctx.label("far:as-good")
+        except Violation as v:
+            ctx.label("far:" + v.kind)
         return
-    modes = prof.modes()
-    in_basin = prof.scan_in_global_basin(tol)
-    # "stalled": the returned parameter is one of the 15 scan parameters itself (the refinement made no progress)
-    stalled = bool(np.min(np.abs(np.linspace(b0, b1, 15) - t)) <= 1e-12 * (b1 - b0))
-    facts = facts_of(case, t=t, distance=d, dense_min=prof.d_min, t_dense=float(prof.ts[prof.i_min]), modes=modes,
-                     scan_in_global_basin=in_basin, stalled=stalled, frac=case["query"]["frac"], length=prof.length)
-    if not (b0 - 1e-9 * (b1 - b0) <= t <= b1 + 1e-9 * (b1 - b0)):
-        raise Violation("closest-out-of-bounds", f"get_closest_param returned {t}, bounds are ({b0}, {b1})", **facts)
-    if not good:
-        kind = "closest-not-minimal" if in_basin else "closest-wrong-basin"
-        failed, t_pinned = pinned_refinement(curve, q, b0, b1, sample)
-        facts["minimiser_failed"] = failed
-        facts["matches_pinned_algorithm"] = bool(abs(t_pinned - t) <= 1e-9 * (b1 - b0))
-        raise Violation(kind, f"returned t = {t} at distance {d}; the dense sample at t = {facts['t_dense']} is at "
-                        f"{prof.d_min} (curve length {prof.length}, {modes} local minima)", **facts)
+    _t, excess = judge_closest(curve, cs, q, b0, b1, facts)
+    n_min = len(cs.minima(q, b0, b1, keep=40))
     ctx.nt(spacing_ratio(spec) > 2)
     ctx.label("near", "type=" + spec["type"] + ("/eq" if spec.get("equalize") else ""),
-              "unimodal" if modes == 1 else "multimodal", "scan-in-basin" if in_basin else "scan-off-basin:recovered")
+              "unimodal" if n_min == 1 else "multimodal", "frac=%g" % case["query"]["frac"],
+              "excess<=0" if excess <= 0 else ("excess<=1e-9" if excess <= 1e-9 else "excess<=3e-6"))
 
 
 # --------------------------------------------------------------------------------------------------
@@ -700,8 +697,8 @@ EDGE_POSITIONS = {
 
 
 @st.composite
-def edge_case(draw):
-    spec = draw(st.one_of(point_curve(("linear", "spline")), analytic_curve()))
+def edge_params(draw, spec):
+    """parameters of the two vertices: either order, away from the seam of a closed curve, >= 10 % of the range apart"""
     b0, b1 = bounds_of(spec)
     closed = spec["type"] == "circle" and b1 - b0 > TWO_PI - 0.3
     margin = 0.08 if closed else 0.0
@@ -711,14 +708,25 @@ def edge_case(draw):
     t1, t2 = min(hi, max(lo, t1)), min(hi, max(lo, t2))
     if abs(t1 - t2) < 0.1 * (b1 - b0):
         t1, t2 = (lo, hi) if draw(st.booleans()) else (hi, lo)
-    return {
+    return [t1, t2]
+
+
+@st.composite
+def edge_case(draw):
+    spec = draw(st.one_of(point_curve(("linear", "spline")), analytic_curve()))
+    case = {
         "curve": spec,
-        "params": [t1, t2],
+        "params": draw(edge_params(spec)),
         "position": draw(st.sampled_from(sorted(EDGE_POSITIONS))),
         "n_points": draw(st.integers(1, 12)),
         "representation": draw(st.sampled_from(["spline", "polyLine"])),
         "dirs": [draw(_vec), draw(_vec)],
     }
+    # history after the first write: the two vertices are moved to other points of the curve (as an optimiser or the
+    # user does with vertex.move_to), the six other corners are jiggled, and the mesh is written again
+    steps = draw(st.sampled_from([0, 1, 1, 1, 2]))
+    case["history"] = [{"params": draw(edge_params(spec)), "jiggle": [draw(_vec) for _ in range(6)]} for _ in range(steps)]
+    return case
 
 
 def build_edge_mesh(case, curve, v1, v2):
@@ -765,85 +773,19 @@ def build_edge_mesh(case, curve, v1, v2):
     return mesh, np.concatenate((bottom, top))
 
 
-class CurveSamples:
-    """The curve sampled once, refined until neighbouring samples are no further apart than 1/1500 of its length (the
-    parametrisation of an interpolated curve can be 100x faster in one place than in another)."""
-
-    def __init__(self, sample, b0, b1, extra=()):
-        self.sample = sample
-        ts = dense_params(b0, b1, extra, n=801)
-        pts = sample(ts)
-        for _ in range(12):
-            seg = np.linalg.norm(np.diff(pts, axis=0), axis=1)
-            long = np.nonzero(seg > seg.sum() / 1500)[0]
-            if len(long) == 0 or len(ts) > 12000:
-                break
-            mid = 0.5 * (ts[long] + ts[long + 1])
-            ts = np.concatenate((ts, mid))
-            pts = np.concatenate((pts, sample(mid)))
-            order = np.argsort(ts, kind="stable")
-            ts, pts = ts[order], pts[order]
-        self.ts, self.pts = ts, pts
-        self.length = polyline(pts)
-
-    def minima(self, q, lo, hi, keep=6):
-        """refined local minima [(distance, t)] of |P(t) - q| over [lo, hi], best first"""
-        sel = np.nonzero((self.ts >= lo) & (self.ts <= hi))[0]
-        if len(sel) == 0:
-            t = 0.5 * (lo + hi)
-            return [(float(np.linalg.norm(self.sample([t])[0] - q)), t)]
-        ts = self.ts[sel]
-        prof = np.linalg.norm(self.pts[sel] - q, axis=1)
-        cand = [i for i in range(len(prof))
-                if prof[i] <= (prof[i - 1] if i > 0 else math.inf) and prof[i] <= (prof[i + 1] if i < len(prof) - 1 else math.inf)]
-        cand = sorted(cand, key=lambda i: prof[i])[:keep]
-        out = []
-        for i in cand:
-            a, b = max(lo, ts[max(i - 1, 0)]), min(hi, ts[min(i + 1, len(ts) - 1)])
-            t, d = golden(lambda t: float(np.linalg.norm(self.sample([t])[0] - q)), a, b, iters=45) if b > a else (a, prof[i])
-            out.append((min(d, float(prof[i])), float(t) if d <= prof[i] else float(ts[i])))
-        return sorted(out)
-
-    def nearest(self, q, lo, hi):
-        d, t = self.minima(q, lo, hi)[0]
-        return t, d
+def vertex_on_curve_once(cs, v, t, b0, b1) -> bool:
+    """the vertex' own parameter is well defined: the curve passes there exactly once, at t"""
+    mins = cs.minima(v, b0, b1)
+    return abs(mins[0][1] - t) <= 1e-4 * (b1 - b0) and sum(1 for d, _ in mins if d <= 1e-4 * cs.length) == 1
 
 
-def check_edge(case, ctx: Ctx) -> None:
-    spec = case["curve"]
-    curve, ref = build(spec)
-    sample = sampler(curve, ref)
+def judge_written_edge(case, ctx, ctxt, mesh, text, t1, t2, facts):
+    """one written file + live edge against the curve and the current vertex parameters t1 -> t2"""
+    spec, ref, sample, cs = ctxt["spec"], ctxt["ref"], ctxt["sample"], ctxt["cs"]
     b0, b1 = bounds_of(spec)
-    t1, t2 = case["params"]
-    v1, v2 = sample([t1])[0], sample([t2])[0]
-    cs = CurveSamples(sample, b0, b1, break_params(spec) or ())
     L = cs.length
     tol = 1e-6 * L + 2e-8
-    if np.linalg.norm(v1 - v2) < 1e-3 * L:
-        ctx.label("excluded:coincident-ends")
-        return
-    # the vertices' own parameters must be well defined (the curve passes there once) and the library's closest-parameter
-    # query must find them: its defects (F25, F26) are judged in the closest cells and excluded here (counted)
-    for v, t in ((v1, t1), (v2, t2)):
-        mins = cs.minima(v, b0, b1)
-        if abs(mins[0][1] - t) > 1e-4 * (b1 - b0) or sum(1 for d, _ in mins if d <= 1e-4 * L) != 1:
-            ctx.label("excluded:self-intersection")
-            return
-        try:
-            t_lib = float(curve.get_closest_param(v))
-            d_lib = float(np.linalg.norm(sample([min(b1, max(b0, t_lib))])[0] - v))
-        except Exception:  # noqa: BLE001
-            d_lib = math.inf
-        if d_lib > 1e-6 * L:
-            ctx.label("excluded:closest-param-defect")
-            return
-    facts = facts_of(case, position=case["position"], representation=case["representation"], n_points=case["n_points"],
-                     reversed=t1 > t2)
-    try:
-        mesh, corners = build_edge_mesh(case, curve, v1, v2)
-        text, _ = lt.write_text(mesh)
-    except Exception as ex:  # noqa: BLE001
-        raise Violation("edge-write-failed", f"{type(ex).__name__}: {ex}", **facts) from None
+    v1, v2 = sample([t1])[0], sample([t2])[0]
     try:
         bmd = lt.parse(text)
     except FoamParseError as ex:
@@ -897,23 +839,80 @@ def check_edge(case, ctx: Ctx) -> None:
         raise Violation("edge-length-raised", f"Edge.length raised {type(ex).__name__}: {ex}", **facts) from None
     brk = break_params(spec) or []
     dense = polyline(sample(dense_params(t1, t2, brk, n=4001)))
-    facts.update(length=length, dense=dense)
+    facts = dict(facts, length=length, dense=dense)
     if spec["type"] in ("linear", "line"):
         want = ref_linear_length(ref, brk, t1, t2)
-        # the library's own end parameters may be off by the 1e-6 L admitted above, at either end
-        if abs(length - want) > 1e-5 * L:
+        if abs(length - want) > 1e-7 * L:
             raise Violation("edge-length", f"Edge.length = {length}, polyline length between the vertices = {want}", **facts)
     elif spec["type"] == "spline":
         inscribed = polyline(sample([lo, *[t for t in brk if lo < t < hi], hi]))
-        if not (inscribed - 1e-5 * L <= length <= dense * (1 + 1e-5) + 1e-5 * L):
+        if not (inscribed - 1e-7 * L <= length <= dense * (1 + 1e-5) + 1e-7 * L):
             raise Violation("edge-length", f"Edge.length = {length} outside [{inscribed} (polyline through the defining "
                             f"points), {dense} (dense arc length)]", **facts)
     else:
         if abs(length - dense) > 2e-3 * dense:
             raise Violation("edge-length", f"Edge.length = {length}, dense arc length between the vertices = {dense}", **facts)
-    ctx.nt(spacing_ratio(spec) > 2 and not (lo == b0 and hi == b1))
+
+
+def check_edge(case, ctx: Ctx) -> None:
+    spec = case["curve"]
+    curve, ref = build(spec)
+    sample = sampler(curve, ref)
+    b0, b1 = bounds_of(spec)
+    cs = CurveSamples(sample, b0, b1, break_params(spec) or ())
+    L = cs.length
+    ctxt = {"spec": spec, "ref": ref, "sample": sample, "cs": cs}
+    base = facts_of(case, position=case["position"], representation=case["representation"], n_points=case["n_points"])
+
+    def usable(t1, t2, facts) -> bool:
+        """vertices distinct and each at a point the curve passes once; the library must then find their parameters"""
+        v1, v2 = sample([t1])[0], sample([t2])[0]
+        if np.linalg.norm(v1 - v2) < 1e-3 * L:
+            ctx.label("excluded:coincident-ends")
+            return False
+        for v, t in ((v1, t1), (v2, t2)):
+            if not vertex_on_curve_once(cs, v, t, b0, b1):
+                ctx.label("excluded:self-intersection")
+                return False
+            judge_closest(curve, cs, v, b0, b1, dict(facts, vertex_parameter=t))
+        return True
+
+    t1, t2 = case["params"]
+    facts = dict(base, step=0, reversed=t1 > t2)
+    if not usable(t1, t2, facts):
+        return
+    v1, v2 = sample([t1])[0], sample([t2])[0]
+    try:
+        mesh, _corners = build_edge_mesh(case, curve, v1, v2)
+        text, _ = lt.write_text(mesh)
+    except Exception as ex:  # noqa: BLE001
+        raise Violation("edge-write-failed", f"{type(ex).__name__}: {ex}", **facts) from None
+    judge_written_edge(case, ctx, ctxt, mesh, text, t1, t2, facts)
+    c1, c2 = EDGE_POSITIONS[case["position"]]
+    done = 0
+    for k, step in enumerate(case.get("history", []), start=1):
+        t1, t2 = step["params"]
+        facts = dict(base, step=k, reversed=t1 > t2)
+        if not usable(t1, t2, facts):
+            break
+        v1, v2 = sample([t1])[0], sample([t2])[0]
+        corners = mesh.blocks[0].vertices
+        size = float(np.linalg.norm(v2 - v1))
+        others = [i for i in range(8) if i not in (c1, c2)]
+        try:
+            corners[c1].move_to(v1)
+            corners[c2].move_to(v2)
+            for i, j in zip(others, step["jiggle"]):
+                corners[i].translate(0.1 * size * np.array(j))
+            text, _ = lt.write_text(mesh)
+        except Exception as ex:  # noqa: BLE001
+            raise Violation("edge-write-failed", f"after moving vertices: {type(ex).__name__}: {ex}", **facts) from None
+        judge_written_edge(case, ctx, ctxt, mesh, text, t1, t2, facts)
+        done += 1
+    t1, t2 = case["params"]
+    ctx.nt(spacing_ratio(spec) > 2 and not (min(t1, t2) == b0 and max(t1, t2) == b1))
     ctx.label("type=" + spec["type"] + ("/eq" if spec.get("equalize") else ""), "reversed" if t1 > t2 else "forward",
-              "pos=" + case["position"][:-1], case["representation"])
+              "pos=" + case["position"][:-1], case["representation"], "rewrites=%d" % done)
 
 
 # --------------------------------------------------------------------------------------------------
@@ -941,5 +940,6 @@ CELLS = [
          "analytic curves, seam of closed circles avoided: as close as the dense minimum (near queries)"),
     Cell("C16/edge/oncurve", edge_case(), check_edge, 500, 10000,
          "one OnCurve edge in any of 12 positions, either direction, spline / polyLine: written points on the curve "
-         "between and ordered from vertex 1 to vertex 2; Edge.length = curve length between the vertices"),
+         "between and ordered from vertex 1 to vertex 2; Edge.length = curve length between the vertices; then 0-2 times: "
+         "both vertices moved to other points of the curve, other corners jiggled, written again and judged again"),
 ]
